@@ -18,3 +18,11 @@ Theorem C01_source_lookup_sound : forall s k ts e,
   src_get s k ts = Some e -> e_key e = k /\ e_ver e <= ts.
 Proof. exact LsmProofs.src_get_ver_le. Qed.
 Print Assumptions C01_source_lookup_sound.
+
+(* the lookup is exactly "newest stored version at or below the read timestamp", over every
+   memtable and table of the tree (no version is shadowed by source order) *)
+From Verif Require CompactProofs GetProofs.
+Theorem C01_get_is_newest_version : forall d k ts,
+  GetProofs.lsm_wf d -> db_get d k ts = CompactProofs.newest (GetProofs.all_entries d) k ts.
+Proof. exact GetProofs.db_get_newest. Qed.
+Print Assumptions C01_get_is_newest_version.
